@@ -1,5 +1,125 @@
+import NessaiVerif.Model.LiveSet
 import NessaiVerif.Driver.Parse
-/- stub: replaced by the owner of this area -/
+/-
+Line protocol of the live-set model (token `ls`).  The driver is stateless: every line carries
+its whole input.
+
+  ls run <n> <cands> <ops>      ops ∈ {p,c,f}*  (populate / consume / finalise) run from `St.new n` on one
+                                candidate stream; answer: one dump per op joined by " | ", then " || " and the
+                                full nested / idx / hist lists.  An op that fails prints `err=<e>` and ends the run.
+  ls step <n> <iter> <live> <cands>   one `consume` from the given live set
+  ls insert <live> <pt>               `insert_live_point` alone (including the failing `index = 0` case)
+
+  cand = id:stored:eval:logP:inB:popd    stored/eval ∈ {nan,-inf,<int>}   logP ∈ {f,-inf,nan,inf}
+  pt   = id:logL:it:logP:inB
+-/
 namespace NessaiVerif.Driver.LiveSet
-def handle (_toks : List String) : String := "bad-op"
+open NessaiVerif NessaiVerif.Parse NessaiVerif.LiveSet
+
+def parseLV? (s : String) : Option LV :=
+  if s == "nan" then some .nan
+  else if s == "-inf" then some .ninf
+  else (parseInt? s).map .fin
+
+def parsePV? (s : String) : Option PV :=
+  if s == "f" then some .fin
+  else if s == "-inf" then some .ninf
+  else if s == "nan" then some .nan
+  else if s == "inf" then some .pinf
+  else none
+
+def showPV : PV → String
+  | .fin => "f"
+  | .ninf => "-inf"
+  | .nan => "nan"
+  | .pinf => "inf"
+
+def parseCand? (s : String) : Option Cand :=
+  match s.splitOn ":" with
+  | [i, st, ev, lp, b, pd] => do
+    let i ← parseNat? i
+    let st ← parseLV? st
+    let ev ← parseLV? ev
+    let lp ← parsePV? lp
+    let b ← parseBool? b
+    let pd ← parseBool? pd
+    some { id := i, stored := st, eval := ev, logP := lp, inB := b, popd := pd }
+  | _ => none
+
+def parsePt? (s : String) : Option Pt :=
+  match s.splitOn ":" with
+  | [i, l, it, lp, b] => do
+    let i ← parseNat? i
+    let l ← parseInt? l
+    let it ← parseNat? it
+    let lp ← parsePV? lp
+    let b ← parseBool? b
+    some { id := i, logL := l, it := it, logP := lp, inB := b }
+  | _ => none
+
+def showPt (p : Pt) : String :=
+  s!"{p.id}:{p.logL}:{p.it}:{showPV p.logP}:{showBool p.inB}"
+
+def showErr : Err → String
+  | .shape => "err=shape"
+  | .index => "err=index"
+  | .exhausted => "err=exhausted"
+
+def showOI : Option Int → String
+  | none => "-inf"
+  | some v => toString v
+
+def dump (s : St) (left : Nat) : String :=
+  let nlast := match s.nested.getLast? with
+    | some p => toString p.id
+    | none => "none"
+  let ilast := match s.idx.getLast? with
+    | some i => toString i
+    | none => "none"
+  s!"live={showList showPt s.live} nlen={s.nested.length} nlast={nlast} ilen={s.idx.length} ilast={ilast} " ++
+  s!"min={showOI s.logLmin} max={showOI s.logLmax} it={s.iter} acc={s.accepted} rej={s.rejected} " ++
+  s!"cnt={s.lastCount} left={left}"
+
+def final (s : St) : String :=
+  s!"nested={showList showPt s.nested} idx={showList toString s.idx} hist={showList (fun p => toString p.id) s.hist}"
+
+def runOps : List Char → St → List Cand → List String → String
+  | [], s, _, acc => " | ".intercalate acc.reverse ++ " || " ++ final s
+  | op :: ops, s, cands, acc =>
+    let r : Option (Except Err (St × List Cand)) :=
+      if op == 'p' then some (populate s cands)
+      else if op == 'c' then some (consume s cands)
+      else if op == 'f' then some (.ok (finalise s, cands))
+      else none
+    match r with
+    | none => "bad-op"
+    | some (.error e) => " | ".intercalate ((showErr e) :: acc).reverse ++ " || " ++ final s
+    | some (.ok (s', rest)) => runOps ops s' rest (dump s' rest.length :: acc)
+
+def handle (toks : List String) : String :=
+  match toks with
+  | ["run", n, cands, ops] =>
+    match parseNat? n, parseList? parseCand? cands with
+    | some n, some cands => runOps ops.toList (St.new n) cands []
+    | _, _ => "bad-op"
+  | ["step", n, it, live, cands] =>
+    match parseNat? n, parseNat? it, parseList? parsePt? live, parseList? parseCand? cands with
+    | some n, some it, some live, some cands =>
+      match consume { St.new n with live := live, iter := it } cands with
+      | .error e => showErr e
+      | .ok (s, rest) =>
+        let i := match s.idx.getLast? with
+          | some i => toString i
+          | none => "none"
+        s!"live={showList showPt s.live} i={i} cnt={s.lastCount} rej={s.rejected - 1} min={showOI s.logLmin} left={rest.length}"
+    | _, _, _, _ => "bad-op"
+  | ["insert", live, p] =>
+    match parseList? parsePt? live, parsePt? p with
+    | some live, some p =>
+      match insertLive live p with
+      | .error e => showErr e
+      | .ok (l, i) => s!"ok {showList (fun q => toString q.id) l} {i}"
+    | _, _ => "bad-op"
+  | _ => "bad-op"
+
 end NessaiVerif.Driver.LiveSet
